@@ -15,7 +15,13 @@ from pathlib import Path
 sys.path.insert(0, str(Path(__file__).resolve().parents[1]))
 os.environ.setdefault("PRIMAITE_VERIF", "1")
 
-from harness.lib.core import Ctx  # noqa: E402
+from harness.lib.core import REPO, Ctx  # noqa: E402
+
+sys.path.insert(1, str(REPO / "src"))  # the implementation under test is always REPO's working tree
+os.environ["PYTHONPATH"] = str(REPO / "src") + os.pathsep + os.environ.get("PYTHONPATH", "")
+import warnings  # noqa: E402
+
+warnings.filterwarnings("ignore")
 
 
 def main() -> int:
